@@ -12,7 +12,7 @@ from __future__ import annotations
 import asyncio
 import random
 
-from .common import l3
+from .common import l3, gen
 from .common.model import Model, nats, unnats
 from .common.report import Part, guarded
 
@@ -75,7 +75,29 @@ def worker(job):
         nsess = r.choice([2, 2, 3, 3, 4])
         prof = dict(PROFILE, final_noops=False)
         prog = l3.gen_program(r, nsess, r.randint(4, maxlen), prof)
+        if r.random() < 0.6:
+            # every session first learns the flags of what it selected: from then on "last told" is defined for every message,
+            # and a change that is never reported shows as a difference at the end
+            prog[nsess:nsess] = [['fetch', i, False, '1:*', ['FLAGS']] for i in range(nsess)]
         cases.append((nsess, tail(prog, nsess)))
+    for _ in range(max(2, ncases // 3)):
+        # echo family: what session 0 stores (silently or not, by UID or not; refused when it holds the mailbox read-only) is stored again
+        # by session 1 straight afterwards - the prediction, refusal or silencing of one session meets the same change coming from outside
+        prog = [['select', 0, 0, r.random() < 0.5], ['select', 1, 0, False]]
+        prog += [['append', 1, 0, l3.gen_flags(r, PROFILE), cid, r.randint(0, 5), 0] for cid in range(1, r.randint(3, 5))]
+        prog += [['noop', 0], ['noop', 1], ['fetch', 0, False, '1:*', ['FLAGS']], ['fetch', 1, False, '1:*', ['FLAGS']]]
+        for _ in range(r.randint(1, 4)):
+            byuid = r.random() < 0.5
+            st = ['store', 0, byuid, gen.seqset(r, 4, 100 if byuid else 0), r.choice([0, 1, 1, 2]), l3.gen_flags(r, PROFILE, store=True), r.random() < 0.6]
+            prog.append(st)
+            if r.random() < 0.85:
+                prog.append(['store', 1] + st[2:6] + [False])
+            x = r.random()
+            if x < 0.3:
+                prog.append(['noop', 0])
+            elif x < 0.4:
+                prog.append(['fetch', 0, False, '1:*', ['UID']])
+        cases.append((2, tail(prog, 2)))
     done = []
     for nsess, prog in cases:
         with guarded(part, 'C02 L3 run', dict(nsess=nsess, program=prog)):
